@@ -5,9 +5,10 @@ package curve25519
 // Contracts for package curve25519, checked by /verif (govc). Comment-only file: it adds no declarations.
 // Assumed: the bodies call x/crypto/curve25519 and crypto/rand; results are the idealised X25519 functions.
 
+// a new private key is a fresh draw of the system's random source (all 32 bytes), never a constant
 //@ func GeneratePrivateKey() (k)
-//@   trusted
-//@   pure
+//@   modifies randcount
+//@   ensures seq(k) == randtoken(old(randcount()), 32) && randcount() == old(randcount()) + 1
 //@ func PublicKey(privateKey) (k)
 //@   trusted
 //@   pure
